@@ -1026,6 +1026,14 @@ struct TemplateCore {
     }
 
     // Render
+    // Copies the template text [from, to); tags built from malformed text can describe an empty,
+    // reversed or out-of-range slice, which is skipped.
+    inline void writeSlice(SizeT from, SizeT to) const {
+        if ((from < to) && (to <= length_)) {
+            stream_->Write((content_ + from), (to - from));
+        }
+    }
+
     void render(const TagBit *tag, const TagBit *end, SizeT offset, SizeT end_offset) const {
         while (tag < end) {
             switch (tag->GetType()) {
@@ -1071,14 +1079,14 @@ struct TemplateCore {
             ++tag;
         }
 
-        stream_->Write((content_ + offset), (end_offset - offset));
+        writeSlice(offset, end_offset);
     }
 
     void renderVariable(const VariableTag &tag, SizeT &offset) const {
         const SizeT t_offset = (tag.Offset - TagPatterns::VariablePrefixLength);
         const SizeT length   = (tag.Length + TagPatterns::VariableFullLength);
 
-        stream_->Write((content_ + offset), (t_offset - offset));
+        writeSlice(offset, t_offset);
         offset = t_offset;
         offset += length;
 
@@ -1104,7 +1112,7 @@ struct TemplateCore {
         const SizeT t_offset = (tag.Offset - TagPatterns::RawVariablePrefixLength);
         const SizeT length   = (tag.Length + TagPatterns::RawVariableFullLength);
 
-        stream_->Write((content_ + offset), (t_offset - offset));
+        writeSlice(offset, t_offset);
         offset = t_offset;
         offset += length;
 
@@ -1120,7 +1128,7 @@ struct TemplateCore {
         const QExpression *expr = tag.Expressions.First();
         QExpression        result;
 
-        stream_->Write((content_ + offset), (tag.Offset - offset));
+        writeSlice(offset, tag.Offset);
         offset = tag.EndOffset;
 
         if (tag.Expressions.IsNotEmpty() && evaluate(result, expr, QOperation::NoOp)) {
@@ -1145,7 +1153,7 @@ struct TemplateCore {
                 }
             }
         } else {
-            stream_->Write((content_ + tag.Offset), (tag.EndOffset - tag.Offset));
+            writeSlice(tag.Offset, tag.EndOffset);
         }
     }
 
@@ -1154,7 +1162,7 @@ struct TemplateCore {
         const Char_T  *content = nullptr;
         SizeT          length  = 0;
 
-        stream_->Write((content_ + offset), (tag.Offset - offset));
+        writeSlice(offset, tag.Offset);
         offset = tag.EndOffset;
 
         if ((s_var != nullptr) && s_var->SetCharAndLength(content, length)) {
@@ -1217,7 +1225,7 @@ struct TemplateCore {
 
             StringUtils::EscapeHTMLSpecialChars(*stream_, (content + last_index), (index - last_index));
         } else {
-            stream_->Write((content_ + tag.Offset), (tag.EndOffset - tag.Offset));
+            writeSlice(tag.Offset, tag.EndOffset);
         }
     }
 
@@ -1225,7 +1233,7 @@ struct TemplateCore {
         QExpression        result;
         const QExpression *expr = tag.Case.First();
 
-        stream_->Write((content_ + offset), (tag.Offset - offset));
+        writeSlice(offset, tag.Offset);
         offset = tag.Offset;
         offset += tag.Length;
 
@@ -1265,7 +1273,7 @@ struct TemplateCore {
         Value_T        grouped_set;
         const Value_T *loop_set;
 
-        stream_->Write((content_ + offset), (tag.Offset - offset));
+        writeSlice(offset, tag.Offset);
         offset = tag.EndOffset;
         offset += TagPatterns::LoopSuffixLength;
 
@@ -1339,7 +1347,7 @@ struct TemplateCore {
         const IfTagCase *end  = tag.Cases.End();
         QExpression      result;
 
-        stream_->Write((content_ + offset), (tag.Offset - offset));
+        writeSlice(offset, tag.Offset);
         offset = tag.EndOffset;
 
         if ((item != nullptr) && item->Case.IsNotEmpty()) { // First case should not be empty
